@@ -15,6 +15,8 @@ use crate::global::{
 pub struct ConfigDatabase {
     db: DB,
     cache: HashMap<String, String>,
+    #[cfg(feature = "verif")]
+    verif_name: String,
 }
 
 impl ConfigDatabase {
@@ -26,6 +28,8 @@ impl ConfigDatabase {
         Ok(Self {
             db,
             cache: HashMap::new(),
+            #[cfg(feature = "verif")]
+            verif_name: name.to_string(),
         })
     }
 
@@ -40,12 +44,22 @@ impl ConfigDatabase {
     }
 
     pub fn set(&mut self, key: String, value: String) -> Result<(), Box<dyn Error>> {
+        #[cfg(feature = "verif")]
+        crate::verif_hooks::before_persistent_write(crate::verif_hooks::Ev::CPut {
+            table: self.verif_name.clone(),
+            key: key.clone(),
+            val: value.clone(),
+        })?;
         self.db.put(&key.encode_vec(), &value.encode_vec())?;
         self.cache.insert(key, value);
         Ok(())
     }
 
     pub fn flush(&self) -> Result<(), Box<dyn Error>> {
+        #[cfg(feature = "verif")]
+        crate::verif_hooks::before_persistent_write(crate::verif_hooks::Ev::CFlush {
+            table: self.verif_name.clone(),
+        })?;
         self.db.flush().map_err(|e| e.into())
     }
 
